@@ -1,5 +1,111 @@
-import Rtcm.Model.Names
-import Rtcm.Model.Socket
+import Rtcm.Lemmas.ReaderItems
+import Rtcm.Lemmas.Message
 import Rtcm.Gen.Tables
+/-
+  C02 — no valid frame is lost, duplicated or reordered on well-formed mixed input.
+  Input = any concatenation of items: RTCM3-framed byte strings (any payload length 0..1023, any
+  content — implemented, unknown, undecodable, zero-length), complete NMEA sentences, complete UBX
+  frames, noise bytes other than the three sync characters; over a file-like stream that returns
+  what is asked for.  (Buffered streams behave identically; socket-backed streams deliver the same
+  bytes by C11 and are run against the same oracle by the correspondence check.)
+-/
 namespace Rtcm
+
+abbrev T2 := Rtcm.Gen.tables
+
+/-- the constants the reader's dispatch relies on, in the current tables -/
+theorem C02_reader_consts : ReaderConsts T2 := ⟨by decide +kernel, by decide +kernel, by decide +kernel⟩
+
+/-- the frames a stream of items should deliver: every framed item whose parse succeeds (all of them
+    when parsing is off), in order -/
+def deliverable (T : Tables) (o : Opts) : List SItem → List (Bytes × Option Msg)
+  | [] => []
+  | .frame f :: rest =>
+    (if o.parsed then
+      match parse T f o.validate o.label with
+      | .ok m => [(f, some m)]
+      | _ => []
+     else [(f, none)]) ++ deliverable T o rest
+  | _ :: rest => deliverable T o rest
+
+theorem frames_errEvents (T : Tables) (o : Opts) (e : LibErr) : frames (errEvents T o e) = [] := by
+  unfold errEvents
+  repeat' split
+  all_goals rfl
+
+theorem frames_expect (T : Tables) (o : Opts) (items : List SItem) :
+    frames (expect T o items) = deliverable T o items := by
+  induction items with
+  | nil => rfl
+  | cons it rest ih =>
+    have : expect T o (it :: rest) = it.events T o ++ expect T o rest := by simp [expect]
+    rw [this, frames_append, ih]
+    cases it with
+    | frame f =>
+      simp only [SItem.events, deliverable]
+      by_cases hp : o.parsed = true
+      · simp only [hp, if_true]
+        cases parse T f o.validate o.label with
+        | ok m => rfl
+        | lib e => simp [frames_errEvents]
+        | foreign e => rfl
+      · simp only [hp, if_false]; rfl
+    | noise b => rfl
+    | nmea t body => rfl
+    | ubx => rfl
+
+/-- **Main theorem.**  Iterating the reader over any well-formed mixed stream returns every
+    deliverable RTCM3 frame exactly once, byte for byte, in stream order — in every error mode (the
+    iteration resumes after a raised error) — and then stops cleanly. -/
+theorem C02_no_frame_lost (o : Opts) (items : List SItem) (hv : ∀ it ∈ items, it.Valid T2) :
+    frames (run fileOps T2 o true (fs (streamOf items))) = deliverable T2 o items
+    ∧ (run fileOps T2 o true (fs (streamOf items))).getLast? = some .stop := by
+  rw [run_items T2 C02_reader_consts o items hv]
+  exact ⟨frames_expect T2 o items, by simp [expect]⟩
+
+/-- a frame whose payload the constructor accepts is deliverable: in particular every payload of at
+    least two bytes with an unknown message number (stub), up to the maximum 1023-byte payload -/
+theorem C02_constructible_is_deliverable (T : Tables) (p : Bytes) (l v : Nat) (m : Msg)
+    (hc : construct T (some p) l = .ok m) (hlen : p.length < 65536) :
+    ∃ f, frameOf T p = .ok f ∧ parse T f v l = .ok m := by
+  have hs : m.serialize T = frameOf T p := by simp [Msg.serialize, construct_payload T p l m hc]
+  simp only [frameOf, len2bytes, hlen, if_true] at hs ⊢
+  refine ⟨_, rfl, ?_⟩
+  unfold parse
+  rw [if_neg (by rw [crc_self_zero]; simp)]
+  have : ∀ (h c : Bytes), h.length = 3 → c.length = 3 → ((h ++ p ++ c).drop 3).take ((h ++ p ++ c).length - 3 - 3) = p := by
+    intro h c hh hc3
+    have hd : h.drop 3 = [] := List.drop_eq_nil_of_le (by omega)
+    rw [List.append_assoc, List.drop_append, hd, hh]
+    simp [hc3, hh]
+  have e := this [UInt8.ofNat T.rtcmHdr, UInt8.ofNat (p.length / 256), UInt8.ofNat (p.length % 256)]
+    (crc2bytes (UInt8.ofNat T.rtcmHdr :: [UInt8.ofNat (p.length / 256), UInt8.ofNat (p.length % 256)] ++ p)) rfl
+    (by simp [crc2bytes, toBytes3])
+  simp only [List.cons_append, List.nil_append] at e ⊢
+  rw [e]
+  exact hc
+
+/-- zero-length filler frames, one-byte payloads and undecodable payloads neither end the iteration
+    nor displace a later frame: they contribute no frame and the items after them are unaffected
+    (an instance of the main theorem, stated for emphasis) -/
+theorem C02_filler_does_not_end_iteration (o : Opts) (f : Bytes) (items : List SItem)
+    (hf : Framed f) (hv : ∀ it ∈ items, it.Valid T2)
+    (hbad : ∀ m, parse T2 f o.validate o.label ≠ .ok m) (hp : o.parsed = true) :
+    frames (run fileOps T2 o true (fs (streamOf (.frame f :: items)))) = deliverable T2 o items := by
+  have := (C02_no_frame_lost o (.frame f :: items) (by
+    intro it hit; simp at hit; rcases hit with h | h
+    · rw [h]; exact hf
+    · exact hv it h)).1
+  rw [this]
+  simp only [deliverable, hp, if_true]
+  cases hparse : parse T2 f o.validate o.label with
+  | ok m => exact absurd hparse (hbad m)
+  | lib e => rfl
+  | foreign e => rfl
+
+/-- non-vacuity: the zero-length frame `d3 00 00 47 ea 4b` is framed, and `$G…` is a known talker -/
+example : Framed [0xd3, 0, 0, 0x47, 0xea, 0x4b] :=
+  ⟨⟨0, 0, [], [0x47, 0xea, 0x4b], rfl, by decide, by decide, by decide⟩⟩
+example : (SItem.nmea 71 [78, 71, 71, 65, 13]).Valid T2 := ⟨by decide +kernel, by decide⟩
+
 end Rtcm
